@@ -1,5 +1,9 @@
 -- GENERATED from /repo sources by tools/extract.py on every check; do not edit
 namespace Elvis.Gen
+/-- the responder task logs the error `respond_to_query` returns; nothing is unwrapped before the reply is built -/
+def dnsServerReportsErrors : Bool := true
+/-- `get_host_by_name` unwraps nothing after `recv_msg` and checks `rdata.len() < 4` -/
+def dnsClientReportsErrors : Bool := true
 /-- `respond_to_query` reads its request with `recv_msg()` (the whole datagram) -/
 def dnsServerReadsWholeDatagram : Bool := true
 /-- byte budget of `recv(n)` when it does not (0 = reads the whole datagram) -/
